@@ -103,16 +103,15 @@ def run(ctx):
         points = points * 4          # every abort point under four random choices of the members' scan windows
     jobs = []
     for jid, (n, i, line, nrec, method) in enumerate(points):
-        scans = [rng.choice(["*", "*", "1*", f"0-{nrec - 2}"]) for _ in range(n)]
+        scans = [rng.choice(["*", "*", "1*", f"0-{nrec - 2}", "0-1", "1-2"]) for _ in range(n)]
         # the aborting member must reach its abort line
         if line == 0 and scans[i] == "1*":
             scans[i] = "*"
-        if scans[i].startswith("0-") and line > nrec - 2:
-            scans[i] = "*"
-        if "by_line" not in method:
-            pass
-        else:
-            scans = [s if s == scans[i] or s == "*" else "*" for s in scans]     # keep members in step in breadth-first runs
+        if "-" in scans[i]:
+            a, b = (int(v) for v in scans[i].split("-"))
+            if not a <= line <= b:
+                scans[i] = "*"
+        # (breadth-first runs too have members with other scan windows: one whose scan ended before the abort keeps its complete result)
         # (the breadth-first methods trim lines elsewhere and do not raise here: the out-of-component abort is for the serial methods)
         # (of the breadth-first methods only collect_by_line trims collected lines and can raise here)
         kind = "limit" if (line >= 1 and ("by_line" not in method or method == "collect_by_line") and rng.random() < 0.4) else "expr"
